@@ -17,9 +17,11 @@ RULE = ("v1: rows = the two recorded CSV days (sampled, optionally with one toke
         "rows (1-7 tokens, weights incl. 0, USDG supply 0/tiny/1e20-1e27, per-token USDG at 0-4 x target, AUM/GLP incl. 0, glp_price consistent with "
         "AUM/supply); operation sequences of buy/sell/update with amounts zero, negative, 1-999 wei, exact balance/holding, balance x (1 +- 1e-6..1.1e-5), "
         "10 x balance/holding, unknown token, token without wallet entry; a fee sweep over (token, USDG delta incl. exact target crossings, direction) against "
-        "an integer re-implementation of VaultUtils.getFeeBasisPoints; same-bar round trips.  v2: pools with long/short skew 0.01-50, virtual inventory "
+        "an integer re-implementation of VaultUtils.getFeeBasisPoints; same-bar round trips and same-token sequences of 2-7 buys / partial sales / sell-all (amount 0) / rejected sales "
+        "closed so that the holding ends where it started (tokens out <= tokens in, and every call's wallet delta).  v2: pools with long/short skew 0.01-50, virtual inventory "
         "present/absent/None, impact pool 0-1e9, zeroed fields, default and perturbed PoolConfig (incl. positive > negative factor, exponent != 2), "
-        "dataclass rows and pandas rows; deposit/withdraw sequences with the same amount classes; round trips.  special numbers: every amount argument of "
+        "dataclass rows and pandas rows; deposit/withdraw sequences with the same amount classes; round trips; deposit/withdraw(None)/partial/rejected sequences mostly on the heavy side "
+        "(no positive impact) closed at the starting holding (value out <= value in); rows with poolValue at the edge of the double range.  special numbers: every amount argument of "
         "buy_glp / sell_glp / deposit / withdraw as float nan, +-inf, -0.0, +-1e90 and Decimal NaN, sNaN, +-Infinity, +-1E+400, -0, 1E-400, with the strict wallet and with "
         "allow_negative_balance, after 0-2 ordinary operations (no number of the state may become NaN/inf; v2 and finite v1 arguments are also compared with the model).  "
         "bucket = (version, operation, model branch tag or fee branch, outcome class, argument class).")
@@ -359,6 +361,79 @@ def v1_roundtrips(ctx: Ctx, n: int):
             ratio = F(got) / F(amount) if amount else F(0)
             ctx.case(f"v1:roundtrip:{'ok' if ok else 'PROFIT'}:{kind}:parts{parts}:loss~{'0' if ratio > F(9999, 10000) else ('<1%' if ratio > F(99, 100) else '>=1%')}",
                      {"tok": tok, "amount": str(amount), "back": str(got)})
+
+
+def v1_sequence_case(ctx, spec, tok, ops, record=True):
+    """theorem C17_v1_sequence_no_profit on the implementation: ANY list of buy_glp / sell_glp (0 = everything held) calls on one token in one bar,
+    accepted or rejected; if the holding at the end is at least the holding at the start, the tokens received do not exceed the tokens paid.
+    Returns (holds?, tokens in, tokens out, outcomes) or None when the premise (final holding >= initial) is not met."""
+    w = G.V1World.from_spec(spec)
+    rep = {"world": spec, "sequence": {"tok": tok, "ops": [ser_op(o) for o in ops]}}
+    sub = ctx if record else Ctx(ctx.prop, ctx.tier, ctx.seed, False)
+    g0 = F(w.market.glp_amount)
+    t_in = t_out = F(0)
+    outs = []
+    for op in ops:
+        pre = w.dump()
+        out, res, _ = w.apply(op)
+        wallet_delta_oracle(sub, 1, w, op, out, res, pre, w.dump(), rep)
+        outs.append(out)
+        if out == "ok" and op["kind"] == "buy":
+            t_in += F(op["amount"])
+        elif out == "ok" and op["kind"] == "sell":
+            t_out += F(res)
+    if F(w.market.glp_amount) < g0:
+        return None
+    ok = t_out <= t_in * (1 + G.TOL30)
+    if not ok and record:
+        ctx.violate("v1.sequence.profit", f"{len(ops)} buy_glp/sell_glp calls on {tok} in one bar ({', '.join(o['kind'] + ':' + str(o['amount']) for o in ops)}) -> {outs}: holding "
+                    f"{float(g0)!r} -> {w.market.glp_amount}, tokens received {float(t_out)!r} > tokens paid {float(t_in)!r}"[:700], rep)
+    if sub is not ctx and sub.violations:
+        ok = False
+    return ok, t_in, t_out, outs
+
+
+def v1_sequence_runs(ctx: Ctx, n: int):
+    for _ in range(n):
+        row, names, kind = G.gen_v1_row(ctx.rng)
+        tok = ctx.rng.choice(names)
+        dec = G.V1_DEC[tok]
+        glp0 = ctx.rng.choice([None, None, G.rand_dec(ctx.rng, -3, 6, 18)])
+        w = G.V1World(row, names, [(tok, G.rand_dec(ctx.rng, 2, 9, min(dec, 6)))], glp=glp0)
+        spec = w.spec()
+        g0 = Decimal(0) if glp0 is None else glp0
+        ops, shape = [], []
+        for i in range(ctx.rng.randint(2, 6)):
+            c = ctx.rng.random()
+            held = w.market.glp_amount
+            if c < 0.45 or i == 0:
+                a = ctx.rng.choice([Decimal(ctx.rng.randint(1, 9999)) / Decimal(10 ** dec), G.rand_dec(ctx.rng, -6, 6, min(dec, ctx.rng.randint(0, 18)))])
+                op, sh = {"kind": "buy", "tok": tok, "amount": a}, "b"
+            elif c < 0.6:
+                op, sh = {"kind": "sell", "tok": tok, "amount": Decimal(0)}, "A"                    # everything held
+            elif c < 0.7:
+                op, sh = {"kind": "sell", "tok": tok, "amount": held * 10 + 1}, "x"                # rejected
+            else:
+                part = (held * Decimal(str(round(ctx.rng.uniform(0.05, 0.95), 3)))).quantize(Decimal(1).scaleb(-18))
+                op, sh = {"kind": "sell", "tok": tok, "amount": part}, "s"
+                if part == 0:
+                    continue
+            w.apply(op)
+            ops.append(op)
+            shape.append(sh)
+        # close the sequence so that the holding ends where it started (or above): sell exactly the surplus — `0` = everything when nothing was held
+        surplus = w.market.glp_amount - g0
+        if surplus > 0 and ctx.rng.random() < 0.8:
+            ops.append({"kind": "sell", "tok": tok, "amount": Decimal(0) if g0 == 0 and ctx.rng.random() < 0.6 else surplus})
+            shape.append("A" if ops[-1]["amount"] == 0 else "c")
+        r = v1_sequence_case(ctx, spec, tok, ops)
+        ctx.impl_traces += 1
+        if r is None:
+            ctx.case(f"v1:sequence:premise-not-met:{kind}")
+        else:
+            ok, t_in, t_out, outs = r
+            ctx.case(f"v1:sequence:{'ok' if ok else 'PROFIT'}:{kind}:{''.join(shape)}:{'held0' if g0 == 0 else 'held+'}:{'some-rejected' if any(o != 'ok' for o in outs) else 'all-accepted'}",
+                     {"tok": tok, "in": str(t_in), "out": str(t_out)})
 
 
 # ---------------------------------------------------------------------------------------------------- v1 across bars
@@ -783,6 +858,85 @@ def v2_roundtrips(ctx: Ctx, n: int):
                      {"pool": pcls, "long": la, "short": sa, "paid": float(paid), "back": float(back), "impact": imp})
 
 
+def v2_sequence_case(ctx, spec, ops, record=True):
+    """theorem C17_v2_sequence_no_profit on the implementation: any list of deposit / withdraw (None = everything) calls in one bar whose accepted
+    deposits carry no positive price impact; if the GM holding at the end is at least the holding at the start, the value withdrawn (at the row's
+    prices) does not exceed the value deposited.  Returns (holds?, paid, back, outcomes, any positive impact?) or None (premise not met)."""
+    w = G.V2World.from_spec(spec)
+    rep = {"world": spec, "sequence": {"ops": [ser_op(o) for o in ops]}}
+    sub = ctx if record else Ctx(ctx.prop, ctx.tier, ctx.seed, False)
+    d = w.market._market_status.data
+    lp, sp = F(float(d.longPrice)), F(float(d.shortPrice))
+    a0 = float(w.market.amount)
+    paid = back = F(0)
+    outs, positive = [], False
+    for op in ops:
+        pre = w.dump()
+        out, res, _ = w.apply(op)
+        post = w.dump()
+        if out != "ok" or all(math.isfinite(float(getattr(res, k))) for k in ("long_amount", "short_amount")):
+            wallet_delta_oracle(sub, 2, w, op, out, res, pre, post, rep)
+        outs.append(out)
+        if out == "ok" and op["kind"] == "deposit":
+            paid += F(float(op["long"])) * lp + F(float(op["short"])) * sp
+            positive = positive or res.price_impact_usd > 0
+        elif out == "ok":
+            back += F(res.long_amount) * lp + F(res.short_amount) * sp
+    if not (float(w.market.amount) >= a0):
+        return None
+    ok = positive or back <= paid * (1 + F(1, 10 ** 11))
+    if not ok and record:
+        ctx.violate("v2.sequence.profit", f"{len(ops)} deposit/withdraw calls in one bar, no positive price impact -> {outs}: holding {a0!r} -> {w.market.amount!r}, value withdrawn "
+                    f"{float(back)!r} > value deposited {float(paid)!r}"[:700], rep)
+    if sub is not ctx and sub.violations:
+        ok = False
+    return ok, paid, back, outs, positive
+
+
+def v2_sequence_runs(ctx: Ctx, n: int):
+    for _ in range(n):
+        pool, pcls = G.gen_v2_pool(ctx.rng)
+        if pcls.startswith("zero"):
+            continue
+        cfg = G.gen_v2_cfg(ctx.rng)
+        a0 = ctx.rng.choice([0.0, 0.0, round(G._logu(ctx.rng, -2, 6), 4)])
+        w = G.V2World(pool, cfg, [("weth", Decimal(10) ** 9), ("usdc", Decimal(10) ** 12)], amount=a0)
+        spec = w.spec()
+        # the heavy side of the pool: deposits there are priced with a negative impact
+        heavy_long = pool["longAmount"] * pool["longPrice"] >= pool["shortAmount"] * pool["shortPrice"]
+        ops, shape = [], []
+        for i in range(ctx.rng.randint(2, 6)):
+            c = ctx.rng.random()
+            held = float(w.market.amount)
+            if c < 0.45 or i == 0:
+                usd = G._logu(ctx.rng, 0, 6)
+                side_long = heavy_long if ctx.rng.random() < 0.85 else not heavy_long
+                both = ctx.rng.random() < 0.15
+                op = {"kind": "deposit", "long": usd / pool["longPrice"] if (side_long or both) else 0.0, "short": usd / pool["shortPrice"] if (not side_long or both) else 0.0}
+                sh = "d"
+            elif c < 0.6:
+                op, sh = {"kind": "withdraw", "amount": None}, "A"
+            elif c < 0.7:
+                op, sh = {"kind": "withdraw", "amount": held * 10 + 1}, "x"
+            else:
+                op, sh = {"kind": "withdraw", "amount": held * ctx.rng.uniform(0.05, 0.95)}, "w"
+            w.apply(op)
+            ops.append(op)
+            shape.append(sh)
+        surplus = float(w.market.amount) - a0
+        if surplus > 0 and ctx.rng.random() < 0.8:
+            ops.append({"kind": "withdraw", "amount": None if a0 == 0.0 and ctx.rng.random() < 0.6 else surplus})
+            shape.append("A" if ops[-1]["amount"] is None else "c")
+        r = v2_sequence_case(ctx, spec, ops)
+        ctx.impl_traces += 1
+        if r is None:
+            ctx.case("v2:sequence:premise-not-met")
+        else:
+            ok, paid, back, outs, positive = r
+            ctx.case(f"v2:sequence:{'ok' if ok else 'PROFIT'}:{'impact+' if positive else 'impact<=0'}:{''.join(shape)}:{'held0' if a0 == 0 else 'held+'}:"
+                     f"{'some-rejected' if any(o != 'ok' for o in outs) else 'all-accepted'}:{'cfg' if cfg else 'default'}", {"pool": pcls, "paid": float(paid), "back": float(back)})
+
+
 # ---------------------------------------------------------------------------------------------------- whole runs through the real Actuator
 def _quiet_actuator():
     import logging
@@ -1018,9 +1172,11 @@ def run(ctx: Ctx):
     v1_sequences(ctx, ctx.scale(700, 12000))
     v1_fee_sweep(ctx, ctx.scale(1500, 40000))
     v1_roundtrips(ctx, ctx.scale(500, 10000))
+    v1_sequence_runs(ctx, ctx.scale(400, 8000))
     v1_multibar(ctx, ctx.scale(160, 3000))
     v2_sequences(ctx, ctx.scale(900, 15000))
     v2_roundtrips(ctx, ctx.scale(700, 12000))
+    v2_sequence_runs(ctx, ctx.scale(400, 8000))
     v2_multibar(ctx, ctx.scale(160, 3000))
     v1_actuator_runs(ctx, ctx.scale(12, 150))
     v2_actuator_runs(ctx, ctx.scale(12, 150))
@@ -1045,7 +1201,12 @@ def replay(ctx: Ctx, case) -> bool:
     sp = case["world"]
     if "special" in case:
         return G.special_replay(case, "")
-    if "roundtrip" in case:
+    if "sequence" in case:
+        sq = case["sequence"]
+        ops = [de_op(o) for o in sq["ops"]]
+        r = v1_sequence_case(sub, sp, sq["tok"], ops) if sp["ver"] == 1 else v2_sequence_case(sub, sp, ops)
+        print(f"   sequence -> {r}")
+    elif "roundtrip" in case:
         rt = case["roundtrip"]
         if sp["ver"] == 1:
             r = v1_roundtrip_case(sub, sp, rt["tok"], Decimal(rt["amount"]), rt["parts"])
